@@ -42,6 +42,11 @@ def check(run, tier):
     )
     q = tier == "quick"
     run.mc("MC_Split", "MC_Split" if q else "MC_Split_thorough")
+    # the configuration is part of the state of the twin model: SetCfg steps between the operations (family "config")
+    run.mc("MC_Twin", "MC_Twin_config")
+    if not q:
+        run.mc("MC_Twin", "MC_Twin_config_fluent")
+        run.mc("MC_Twin", "MC_Twin_config_d6", timeout=3000)
     r = rng("C06")
     run_calls(run, grid(tier, r), nontrivial=lambda rec: rec["v"] > rec["M"])
     progs = []
@@ -57,6 +62,28 @@ def check(run, tier):
                                       weights={"transfer": 4, "distribute": 2, "aspirate": 0, "dispense": 0, "add": 0, "remove": 0},
                                       big_factor=6)
         progs.append(p)
+    # the worklist's configuration is state: max_volume / auto_split assigned between operations of one worklist object
+    r2 = rng("C06-config")
+    for dev in ("evo", "fluent"):
+        progs += targeted.config_programs(dev)
+    for i in range(40 if q else 1000):
+        dev = "evo" if i % 2 == 0 else "fluent"
+        progs.append(programs.worklist_program(r2, f"C06/c{i}", dev, r2.randint(3, 7), maxunits=40, wlmax=r2.choice([3, 7, 10]),
+                                               comps=False, small=False, reconfig_prob=0.4, big_factor=4,
+                                               weights={"transfer": 4, "distribute": 2, "aspirate": 1, "dispense": 1, "add": 0, "remove": 0}))
+    # specification -> code: behaviours of the bounded model in which SetCfg steps interleave with the operations
+    from ..drivers import behaviours
+    for cfg in ("MC_TwinGen_config3",) if q else ("MC_TwinGen_config3", "MC_TwinGen_config3_fluent"):
+        mprogs, res = behaviours.generate(cfg, timeout=3000)
+        if not mprogs:
+            run.machinery_errors.append(f"behaviour generation with {cfg} failed: {res.errors[:2]}")
+        run.states += res.distinct
+        run.transitions += res.generated
+        if q and len(mprogs) > 300:
+            k = len(mprogs) // 300 + 1
+            mprogs = mprogs[r2.randrange(k)::k]
+        run.extra["model_behaviours_replayed"] = run.extra.get("model_behaviours_replayed", 0) + len(mprogs)
+        progs += mprogs
     run_programs(run, progs)
 
     # the repository's own test-suite, recorded and judged step by step
